@@ -16,7 +16,8 @@
        function is such a program.
    For the opaque reads the evidence is the run: snapshots before/after, exact
    comparison of the first and second answer, recorded store calls. *)
-From RV Require Import Dataset.Model Dataset.Proofs Purity.Model Purity.Proofs Purity.Programs.
+From RV Require Import Dataset.Model Dataset.Proofs Dataset.OverMemory Dataset.OverMemoryProofs Dataset.OverMemoryReads.
+From RV Require Import Purity.Model Purity.Proofs Purity.Programs.
 Local Open Scope N_scope.
 
 Theorem C13_reachable : forall b ops,
@@ -46,6 +47,24 @@ Print Assumptions C13_repeatable.
 Theorem C13_spec_ok_model : forall c, pwf c -> spec_ok c (model_obs c) = true.
 Proof. exact spec_ok_model. Qed.
 Print Assumptions C13_spec_ok_model.
+
+(* (A') the same over C01's Memory model of memory.py (Dataset/OverMemory.v): a read
+   operation of the front end issues NO store-level write, so the Memory state -
+   indexes, context dictionaries, registered graphs, not only its abstraction -
+   is the same object afterwards; and its answer, computed from Memory's store
+   reads, is the list-level model's answer (collections as sets), hence the same
+   when asked again *)
+Theorem C13_read_pure_memory : forall m fr o, is_read o = true -> mem_after m fr [o] = m.
+Proof. exact mem_after_read. Qed.
+Print Assumptions C13_read_pure_memory.
+
+Theorem C13_repeatable_memory : forall m d o, AbsM m (st d) -> is_read o = true ->
+  res_eqb (m_read (is_ds d) (mem_after m (fresh d) [o]) o) (snd (do_op d o)) = true
+  /\ m_read (is_ds d) (mem_after m (fresh d) [o]) o = m_read (is_ds d) m o.
+Proof.
+  intros m d o HA Hr. rewrite (mem_after_read m (fresh d) o Hr). split; [now apply m_read_realises|reflexivity].
+Qed.
+Print Assumptions C13_repeatable_memory.
 
 (* historical witnesses (both repaired in /repo): the _graph of before the "fix:"
    commit for F19 copied a Graph object of another store into the dataset on read
